@@ -342,26 +342,28 @@ class C16(Property):
     id = 'C16'
     title = 'A validated template always evaluates; evaluating never changes the event'
     design_ref = 'DESIGN.md section 10, C16'
-    required_theorems = ('validated_evaluates', 'collapse_iff', 'renders_every_object', 'evalNodes_total_on_valid', 'scope_collapse_is_local',
-                         'validate_sound')
-    level_text = ('Lean 4 theorems over a model of the template language (abstract syntax: text, placeholders with formatter and '
-                  'arguments, nested scopes; Template.validate and Template.evaluate): if a template passes validation for an event '
-                  'type, evaluating it for any event whose boolean and datetime objects are valid yields a string (no error '
-                  'branch is reachable); a plain string of a scope evaluates to the empty string exactly when it is empty or one '
-                  'of its placeholders has no value, and then exactly that scope is omitted while the enclosing scopes carry on; '
-                  'a placeholder without formatter (and merge) stands for every object of its properties. Compared with '
-                  'Template.validate / evaluate and EventType.evaluate_template on templates generated from the grammar (every '
-                  'formatter with valid and invalid argument lists, scopes to depth 4, adjacent placeholders, literal brackets) '
-                  'and events of all three representations, including the event state before and after, against an independent '
-                  'reference evaluator.')
-    level_note = ('Proof is about the model. The model works on the abstract syntax: the textual scanning (_split_template, the '
-                  'placeholder regular expressions) is tied to it by rendering generated syntax trees only; the rendering of dates, '
-                  'durations, floats and coordinates is an input of the model (judged by the reference evaluator where it is a '
-                  'pure function, wildcarded for dateutil output); that evaluation does not mutate the event it is given is '
-                  'runtime behaviour checked by the correspondence (state before = state after).')
+    required_theorems = ('validated_evaluates', 'validated_string_evaluates', 'placeholders_found_alike',
+                         'validation_judges_what_is_evaluated', 'scan_loses_nothing', 'collapse_iff', 'renders_every_object',
+                         'evalNodes_total_on_valid', 'scope_collapse_is_local', 'validate_sound', 'valid_placeholder_has_arguments')
+    level_text = ('Lean 4 theorems over a model of templates as strings (cutting into scopes, the placeholder expressions of '
+                  'validator and evaluator, _parse_placeholder, Template.validate and Template.evaluate): if a template string '
+                  'passes validation for an event type, evaluating it for any event whose boolean and datetime objects are valid '
+                  'yields a string (no error branch is reachable); the validator, which searches the whole template, judges '
+                  'exactly the placeholders the evaluator finds between the curly brackets; scanning loses no character; a '
+                  'string of a scope evaluates to the empty string exactly when one of its placeholders has no value, and then '
+                  'exactly that scope is omitted while the enclosing scopes carry on; a placeholder without formatter (and merge) '
+                  'stands for every object of its properties. Compared with Template.validate / evaluate and '
+                  'EventType.evaluate_template on templates generated from the grammar (every formatter with valid and invalid '
+                  'argument lists, scopes to depth 4, adjacent placeholders, literal brackets in every position, strings of raw '
+                  'fragments) and events of all three representations (object values that look like placeholders included), '
+                  'including the event state before and after, against an independent reference parser and evaluator.')
+    level_note = ('Proof is about the model. The rendering of dates, durations, floats and coordinates is an input of the model '
+                  '(judged by the reference evaluator where it is a pure function, wildcarded for dateutil output); that '
+                  'evaluation does not mutate the event it is given is runtime behaviour checked by the correspondence (state '
+                  'before = state after); colourised output and generate_collapsed_templates are not modelled.')
     technique = 'Lean 4 proof (totality of evaluation on validated templates by structural induction; collapse characterisation) + differential correspondence'
     parallel = True
-    assumptions = ('events are valid for the event type', 'literal text contains no curly brackets and no double square brackets')
+    assumptions = ('events are valid for the event type',)
 
     def rule(self):
         return ('cases: (template syntax tree incl. invalid argument lists, events); observed: validation verdict; for accepted '
